@@ -14,10 +14,10 @@ pub fn run<C: Suite>(ctx: &mut Ctx) {
     let max_n: u16 = match (ctx.quick(), slow) {
         (true, true) => 4,
         (true, false) => 6,
-        (false, true) => 6,
-        (false, false) => 9,
+        (false, true) => 7,
+        (false, false) => 11,
     };
-    let reps = ctx.scale(2, 3);
+    let reps = ctx.scale(2, 5);
     for (n, t) in shapes(max_n) {
         for kind in ID_KINDS {
             for rep in 0..reps {
